@@ -56,7 +56,7 @@ def relink(f, link):
     return f
 
 
-def build_traces(rng, nconn, link="eth"):
+def build_traces(rng, nconn, link="eth", nrich=0):
     """per crate: list of (conn id, frame bytes) in trace order, every frame unique"""
     traces = {"tcp": [], "http": [], "tls": []}
     ipid = [0]
@@ -97,6 +97,12 @@ def build_traces(rng, nconn, link="eth"):
         tlsc = [frame(cip, sip, tp, 443, ic + 1, is_ + 1, 0x18, H[:c1], ipid=nid(), fragw=fw(2)), frame(cip, sip, tp, 443, ic + 1 + c1, is_ + 1, 0x18, H[c1:c2], ipid=nid(), fragw=fw(1)),
                 frame(cip, sip, tp, 443, ic + 1 + c2, is_ + 1, 0x18, H[c2:], ipid=nid(), fragw=fw(0))]
         conns.append({"tcp": tcpc, "http": httpc, "tls": tlsc})
+    # connections with independently drawn features (address family and form, ports, TTL, TOS, fragment word, IP options, MAC
+    # addresses, SYN option layouts, timestamps on data segments, sequence numbers at the wrap, message shapes, segmentation)
+    from props import traffic
+    for c in range(nconn, nconn + nrich):
+        conns.append({kind: traffic.connection(rng, 300 + c, kind, nid)["frames"] for kind in ("tcp", "http", "tls")})
+    nconn += nrich
     for crate in traces:
         ptr = [0] * nconn
         order = []
@@ -145,7 +151,7 @@ def run(tier, v):
     configs = [(nw, bs) for nw in (range(1, 17) if tier == "thorough" else (1, 2, 3, 5, 8, 16)) for bs in ((1, 2, 4) if tier == "thorough" else (1, 4))]
     seq_lines, pool_lines, meta = [], [], []
     for t in range(n_traces):
-        traces = build_traces(rng, 6 + 3 * t, ("eth", "raw", "null")[t % 3])     # one capture framing per trace
+        traces = build_traces(rng, 6 + 3 * t, ("eth", "raw", "null")[t % 3], nrich=6 + 2 * t)     # one capture framing per trace
         for crate, tr in traces.items():
             frames = [f.hex() for _, f in tr]
             sid = len(seq_lines)
@@ -207,9 +213,12 @@ def run(tier, v):
         for fh, fr in zip(frames, o["out"]):
             if fr["r"] != "ok":
                 continue
-            b = bytes(14 - ipoff) + bytes.fromhex(fh)       # align the IP header at offset 14 whatever the framing
-            a = "%d.%d.%d.%d|%d" % (b[26], b[27], b[28], b[29], (b[34] << 8) | b[35])
-            z = "%d.%d.%d.%d|%d" % (b[30], b[31], b[32], b[33], (b[36] << 8) | b[37])
+            if fr.get("src"):
+                a, z = fr["src"], fr["dst"]                 # as the crate's own packet parser sees them (harness label)
+            else:
+                b = bytes(14 - ipoff) + bytes.fromhex(fh)       # align the IP header at offset 14 whatever the framing
+                a = "%d.%d.%d.%d|%d" % (b[26], b[27], b[28], b[29], (b[34] << 8) | b[35])
+                z = "%d.%d.%d.%d|%d" % (b[30], b[31], b[32], b[33], (b[36] << 8) | b[37])
             for k in ("req", "resp"):
                 if fr[k]:
                     res.append({"conn": str(sorted([a, z])), "digest": digest({k: fr[k]})})
